@@ -168,7 +168,7 @@ class Exec(StmtMixin):
         if c.fresh_result and result.ty.kind == "ref" and not c.qualname.endswith("__init__"):
             self.oblige("post", st, z3.Not(z3.Select(st.entry.alloc_map(result.ty.name), result.t)),
                         "the returned object is newly allocated (fresh_result)", line, extra={"clause": "fresh_result"})
-        for text in c.ensures:
+        for text in list(c.ensures) + list(c.exit_ensures):
             try:
                 g = SpecEval(self, st, st.entry, env, facts).clause(text)
             except SpecError as exc:
